@@ -366,4 +366,4 @@ def run(report, tier):
     report.space(len(states), transitions, bound,
                  "BFS over placement words (site, attribute) per input mode; cfg(any()) on a parameter and above entrait are pruned "
                  "(the former changes the arity of the user's own fn, the latter removes the invocation); non-trivial = at least one placement")
-    evaluate(states, report, tier)
+    common.evaluate_chunked(evaluate, states, report, tier)
